@@ -22,6 +22,8 @@ def hx(b):
 
 def drain_client(sock):
     """datagrams left in the client's receive queue (read through a dup of its fd)"""
+    if sock is None:
+        return []
     s = socket.fromfd(sock.get_fd(), socket.AF_INET, socket.SOCK_DGRAM)
     s.setblocking(False)
     out = []
@@ -69,7 +71,7 @@ class Sess:
             peer = self.peer
         else:
             self.conv = e2e.Conv(peer, env)
-            self.kw0 = peer.state.client_kwargs(with_engine_id=not peer.discover) if peer.kind == "v3" else None
+            self.kw0 = e2e.client_kwargs(peer.state, with_engine_id=not peer.discover) if peer.kind == "v3" else None
         self.iters = []
         self.events = []      # model event strings
         self.expect = []      # implementation observations in the model's rendering
@@ -78,6 +80,8 @@ class Sess:
         self.pending_ok = False   # the last send succeeded (recv is meaningful)
         self.label = label or peer.label
         self.discovered = False
+        # (boots, time) of the most recent message the session accepted; None = not tracked
+        self.last_bt = (0, 0) if (peer.kind == "v3" and not peer.discover and not deferred) else None
         self.keys_installs = 0
 
     # -- model configuration ----------------------------------------------------
@@ -100,7 +104,7 @@ class Sess:
     def set_keys(self, state):
         """install another user / key set (a V3AgentState describes it); the agent side follows"""
         import copy
-        kw = state.client_kwargs()
+        kw = e2e.client_kwargs(state)
         r = e2e.ncall(lambda: self.conv.sock.set_keys(kw["user_name"], kw["auth_alg"], kw["auth_key"], kw["priv_alg"],
                                                       kw["priv_key"]))
         k = len(self.installs)
@@ -134,6 +138,12 @@ class Sess:
 
     def send(self, op, arg=None, it=None):
         """op: get (arg = oid text), getmany (list of texts), getnext / getbulk (it = iterator index), refresh"""
+        if self.conv.sock is None:
+            # the constructor failed: record the call with that outcome (no model event: there is no session)
+            rec = {"kind": "send", "session": self.label, "op": op, "arg": arg, "iter": it, "result": self.conv.ctor_error,
+                   "datagrams": [], "req": None, "expect_bt": None, "ctor_failed": True}
+            self.records.append(rec)
+            return rec
         bm = self.rng.choice([0, 0, 17, 4079, 100000])
         if op == "get":
             r = self.conv.send("get", arg)
@@ -148,7 +158,7 @@ class Sess:
             r = self.conv.send("refresh")
             call = "refresh"
         rec = {"kind": "send", "session": self.label, "op": op, "arg": arg, "iter": it, "result": r,
-               "datagrams": list(self.conv.raw or []), "req": self.conv.req}
+               "datagrams": list(self.conv.raw or []), "req": self.conv.req, "expect_bt": self.last_bt}
         self.records.append(rec)
         # a failed send reveals no ids: assume the common 4-octet case (a shorter random id could
         # make a borderline request fit, see compare())
@@ -184,6 +194,11 @@ class Sess:
             inst["seed"] = (c - inst["failed"]) % 2 ** 64
 
     def recv(self, op, datagrams, it=None):
+        if self.conv.sock is None:
+            rec = {"kind": "recv", "session": self.label, "op": op, "iter": it, "datagrams": [], "result": self.conv.ctor_error,
+                   "consumed": 0}
+            self.records.append(rec)
+            return rec
         self.conv.inject(datagrams)
         r = self.conv.recv(op, self.iters[it] if it is not None else None)
         left = drain_client(self.conv.sock)
@@ -268,6 +283,10 @@ def default_peers():
             ps.append(e2e.Peer("v3", auth=auth, priv=priv))
     ps.append(e2e.Peer("v3", auth=1, priv=2, auth_kt="master", priv_kt="master"))
     ps.append(e2e.Peer("v3", auth=2, priv=1, auth_kt="localized", priv_kt="localized"))
+    # key types given in different forms for the two keys
+    ps.append(e2e.Peer("v3", auth=2, priv=2, auth_kt="password", priv_kt="master"))
+    ps.append(e2e.Peer("v3", auth=1, priv=1, auth_kt="localized", priv_kt="password"))
+    ps.append(e2e.Peer("v3", auth=2, priv=1, auth_kt="master", priv_kt="localized"))
     ps.append(e2e.Peer("v3", auth=2, priv=2, engine_id=bytes(range(1, 33)), user="u" * 32))
     ps.append(e2e.Peer("v3", auth=0, priv=0, engine_id=b"\x80\x00\x00\x00\x01", user=""))
     return ps
@@ -329,7 +348,21 @@ def run_history(env, rng, peers, n_sessions, steps, oversize_bias=0.08, reply_bi
                 vbs = []
             else:
                 vbs = [ber.varbind(a, ber.INT(rng.randrange(100))) for a, _, _ in req["varbinds"][:3]]
-            s.recv(op, [s.peer.response(req, vbs)], it=it)
+            dgs = [s.peer.response(req, vbs)]
+            bt = (s.peer.state.boots, s.peer.state.time) if v3 else None
+            if rng.random() < 0.25:
+                # a well-formed datagram that does not answer this request arrives first; it announces another clock
+                if v3:
+                    stray = s.peer.response(req, vbs, msg_id=(req["msg_id"] + 1) % 2 ** 31, boots=77777, time=88888)
+                else:
+                    stray = s.peer.response(req, vbs, request_id=(req["request_id"] + 1) % 2 ** 31)
+                dgs.insert(0, stray)
+                if rng.random() < 0.3:
+                    dgs = dgs[:1]          # ... and the real reply is lost
+            r = s.recv(op, dgs, it=it)
+            if v3 and s.last_bt is not None and len(dgs) == r["consumed"] and not (
+                    r["result"][0] == "exc" and r["result"][1] == "BlockingIOError"):
+                s.last_bt = bt
         elif rng.random() < 0.3:
             s.recv(op, [], it=it)
     return sess
